@@ -944,6 +944,32 @@ fn gen_pyrun(rng: &mut Rng, n: usize, tier: &str) -> Vec<String> {
                    (&[0xfe, 0, 0, 0, 0, 0, 1, 0x41][..], &[0x80][..]), (&[0x01][..], &[0xc0][..]), (&[0x01, 0xff][..], &[0x80, 0x01][..])] {
         push(&mut out, 0, 100, p, e);
     }
+    // the allocator limit the wheel chooses under LIMIT_HEAP (500 000 000 bytes): a program whose heap use
+    // ends a few bytes below / at / above that limit, with and without the flag (budget 0 = unlimited).
+    // R_0 = 64 bytes, R_i = (concat R_{i-1} R_{i-1}); after R_21 the heap holds 1 + 64*(2^22 - 1) bytes;
+    // a last concat of four substrings (views, no allocation) adds exactly the missing amount.
+    {
+        let k = 21u32;
+        let mut prog = quote(T::A(vec![0x41; 64]));
+        for _ in 0..k {
+            prog = op(&[2], vec![quote(op(&[14], vec![atom(&[1]), atom(&[1])])), prog]);
+        }
+        // + 68: measured on the unchanged tree (the 4-byte strlen result and one more 64-byte copy are also
+        // on the heap); with this offset delta -1 is the last run that fits and delta 0 the first that does not
+        let used: i64 = 1 + 64 * ((1i64 << (k + 1)) - 1) + 68;
+        let deltas: &[i64] = if tier == "thorough" { &[-2, -1, 0, 1, 2] } else { &[-1, 0] };
+        for &d in deltas {
+            let x = WHEEL_HEAP_LIMIT as i64 - used + d;
+            let piece = x / 4;
+            let sizes = [piece, piece, piece, x - 3 * piece];
+            let subs: Vec<T> = sizes.iter().map(|n| op(&[12], vec![atom(&[1]), nil(), quote(int_atom(&BigInt::from(*n)))])).collect();
+            let last = op(&[2], vec![quote(op(&[13], vec![op(&[14], subs)])), prog.clone()]);
+            let flagsets: &[u32] = if tier == "thorough" { &[0x4, 0x0, 0xffff_fffb] } else { &[0x4] };
+            for &w in flagsets {
+                push(&mut out, w, 0, &wire(&last), &[0x80]);
+            }
+        }
+    }
     // the repository's program files
     let maxhex = if tier == "thorough" { 3_000_000 } else { 100_000 };
     for (p, e) in corpus_programs(maxhex) {
